@@ -7,6 +7,7 @@ package main
 // against the acceptor spec/HttpAuthTrace.tla.
 
 import (
+	"sort"
 	"bufio"
 	"encoding/json"
 	"fmt"
@@ -21,6 +22,7 @@ type authScriptC struct {
 	ID      int                   `json:"id"`
 	Mode    string                `json:"mode"`
 	Source  string                `json:"source"`
+	Form    string                `json:"form"`
 	Kind    string                `json:"kind"`
 	ActHost string                `json:"acthost"`
 	Answers map[string][][]string `json:"answers"`
@@ -73,9 +75,67 @@ func init() {
 		if !c.Quick() {
 			budget = 20000
 		}
+		total := len(scripts)
 		if len(scripts) > budget {
-			scripts = scripts[:budget]
+			// stratified: round-robin over classes (Location form x kind x access mode x source x
+			// which identities redirect / ask for credentials), seed-dependent order inside a class
+			byClass := map[string][]*authScriptC{}
+			for _, s := range scripts {
+				hosts := []string{}
+				for h := range s.Answers {
+					hosts = append(hosts, h)
+				}
+				sort.Strings(hosts)
+				nredir, unauth, cross, toPlain := 0, false, false, false
+				for _, h := range hosts {
+					for _, a := range s.Answers[h] {
+						switch {
+						case len(a) > 0 && a[0] == "unauth":
+							unauth = true
+						case len(a) > 1 && a[0] == "redir":
+							nredir++
+							cross = cross || a[1] != h
+							toPlain = toPlain || a[1] == "plain"
+						}
+					}
+				}
+				if nredir > 2 {
+					nredir = 2
+				}
+				pat := fmt.Sprintf("r%d u%v x%v p%v", nredir, unauth, cross, toPlain)
+				if nredir == 0 && s.Form != "abs" {
+					continue // no redirect: the form does not show
+				}
+				k := s.Form + "|" + s.Kind + "|" + s.ActHost + "|" + s.Mode + "|" + s.Source + "|" + pat
+				byClass[k] = append(byClass[k], s)
+			}
+			keys := []string{}
+			for k, l := range byClass {
+				keys = append(keys, k)
+				sort.Slice(l, func(i, j int) bool {
+					bi, _ := json.Marshal(l[i])
+					bj, _ := json.Marshal(l[j])
+					return fnvStr(string(bi), c.Seed) < fnvStr(string(bj), c.Seed)
+				})
+			}
+			sort.Slice(keys, func(i, j int) bool { return fnvStr(keys[i], c.Seed) < fnvStr(keys[j], c.Seed) })
+			var pick []*authScriptC
+			for round := 0; len(pick) < budget; round++ {
+				added := false
+				for _, k := range keys {
+					if round < len(byClass[k]) && len(pick) < budget {
+						pick = append(pick, byClass[k][round])
+						added = true
+					}
+				}
+				if !added {
+					break
+				}
+			}
+			scripts = pick
+			c.Set("script_classes", len(keys))
 		}
+		c.Set("scripts_emitted", total)
 		for i, s := range scripts {
 			s.ID = i + 1
 		}
@@ -155,7 +215,7 @@ func init() {
 		c.Set("trace_events", events)
 		c.Set("evaluations", len(scripts))
 		c.Set("distinct_nontrivial", len(scripts))
-		c.Set("rule", "scripts = per-edge output of spec/HttpAuth.tla for every finished request: answers (200 / 401 / redirect to any of 4 identities) per host up to MaxPerHost, x access mode {none, basic} x credential source {helper, URL userinfo}; a host whose last scripted answer is a redirect keeps redirecting; distinct scripts")
+		c.Set("rule", "scripts = per-edge output of spec/HttpAuth.tla for every finished request: answers (200 / 401 / redirect to any of 4 identities) per host up to MaxPerHost, x access mode {none, basic} x credential source {helper, URL userinfo} x spelling of Location {absolute URL, //host:port/path, /path}; a host whose last scripted answer is a redirect keeps redirecting; distinct scripts")
 		for i := 0; i < len(scripts); i += len(scripts)/4 + 1 {
 			c.Sample(scripts[i])
 		}
